@@ -18,6 +18,7 @@ RULE = (
     "subset vs the exact n-body phase-space density (recursive quadrature), isotropy, weighted vs unweighted mode; nested "
     "ChainGenerator structures of depth 1-3.  non-trivial = n>=3 and N>=10; distinct = (mass set, N, mode)."
 )
+RULE += '  Also: calibration history (same masses in another order calibrated second, bound compared with a fresh interpreter); cascades and generate_phsp_p after the optional calibration.'
 ASSUMPTIONS = [
     "mass shell tested on m^2 (|E^2-p^2-m^2| <= 1e-12 M^2), momentum sum to 1e-12 M",
     "statistical monitors: per-test alpha = 1e-8/(number of tests in the shard); chi2 on bins with expectation >= 20",
